@@ -27,10 +27,10 @@ ASSUMPTIONS = [
     "shared output slices are whatever jnp.s_ can express on one axis (contiguous, integers from either end, negative bounds, steps, overlapping), always selecting >= 1 output",
 ]
 TIMEOUT = {"quick": 1200, "thorough": 3600}
-MIN_COUNTERS = {"quick": {"pinn_calls_compared": 100, "spinn_grids_compared": 12, "hyper_calls_compared": 20,
+MIN_COUNTERS = {"quick": {"pinn_calls_compared": 100, "spinn_grids_compared": 12, "hyper_calls_compared": 20, "hyper_sets_of_equal_row_matrices": 2,
                           "bare_params_calls": 20, "shared_output_sets": 8, "shared_slice_form_negative_int": 4,
                           "shared_slice_form_int": 4, "shared_slice_form_negative_bound": 4},
-                "thorough": {"pinn_calls_compared": 2000, "spinn_grids_compared": 200, "hyper_calls_compared": 400,
+                "thorough": {"pinn_calls_compared": 2000, "spinn_grids_compared": 200, "hyper_calls_compared": 400, "hyper_sets_of_equal_row_matrices": 20,
                              "bare_params_calls": 400, "shared_output_sets": 150, "shared_slice_form_negative_int": 40,
                              "shared_slice_form_int": 40, "shared_slice_form_negative_bound": 40,
                              "shared_slice_form_step": 10, "shared_output_sets_hyper": 10}}
@@ -61,6 +61,8 @@ def gen_cases(tier, seed):
                 c["d"] = 2
         if kind == "hyper":
             c.update(nhyper=int(rng.integers(1, 4)))
+            if (k // 5) % 4 == 3:
+                c["nhyper"] = 4  # several matrix-valued hyper-parameters with the same number of rows
         cases.append(c)
     return cases
 
@@ -320,6 +322,12 @@ def run_case(case, rec):
     if kind == "hyper":
         shapes = [(), (3,), (2, 2)][: case["nhyper"]]
         hnames = ["nu", "vec", "mat"][: case["nhyper"]]
+        if case["nhyper"] == 4:
+            # matrices only, equal row counts: "flattened, then concatenated" differs from any concatenation of the
+            # matrices themselves followed by one flatten (rows would interleave) while every shape stays legal
+            shapes = [(2, 2), (2, 3)] + ([(2, 1)] if case["seed"] % 2 else [])
+            hnames = ["mat", "mat2", "mat3"][: len(shapes)]
+            rec.count("hyper_sets_of_equal_row_matrices")
         order = list(rng.permutation(len(hnames)))
         hyperparams = [hnames[i] for i in order]
         hvals = {n: rng.uniform(-1, 1, s) for n, s in zip(hnames, shapes)}
